@@ -317,7 +317,12 @@ impl teos::verif_sync::Hooks for SelfLockDetector {
     }
     fn wait_timeout(&self, _condvar: usize, _mutex: usize) -> bool {
         // nobody else is there to notify: the time-out elapses (a wait that is re-armed for ever is a verdict as well)
-        if self.timeouts.fetch_add(1, std::sync::atomic::Ordering::Relaxed) > 2000 {
+        // (consecutive ones within one step of a world: `ensure_self_lock_detector` is called at the start of every step)
+        if TIMEOUTS_THIS_STEP.with(|t| {
+            t.set(t.get() + 1);
+            t.get()
+        }) > 2000
+        {
             panic!("blocked for ever: a timed wait on the only thread there is has been re-armed 2000 times");
         }
         true
@@ -328,10 +333,12 @@ impl teos::verif_sync::Hooks for SelfLockDetector {
 
 thread_local! {
     static DETECTOR_ON: std::cell::Cell<bool> = const { std::cell::Cell::new(false) };
+    static TIMEOUTS_THIS_STEP: std::cell::Cell<u64> = const { std::cell::Cell::new(0) };
 }
 
 /// (Re)installs the detector on the calling thread unless the thread runs under the controlled scheduler.
 pub fn ensure_self_lock_detector() {
+    TIMEOUTS_THIS_STEP.with(|t| t.set(0));
     if crate::sched::is_controlled_thread() {
         return;
     }
